@@ -187,12 +187,12 @@ def cases(tier):
     supplies = [(), ('edge_node',), ('edge_node', 'face_edge'), ('edge_node', 'edge_face', 'face_face'),
                 ('edge_node', 'face_edge', 'edge_face', 'face_face')]
     if not q:
-        supplies += [('face_face',), ('edge_face',), ('face_edge',), ('edge_node', 'face_face')]
+        supplies += [('face_face',), ('edge_node', 'face_face'), ('edge_node', 'edge_face')]
     meshes = ['tqp', 'qqq'] if q else ['tqp', 'qqq', 'tq', 'fan', 'block']
     for mesh in meshes:
         for supply in supplies:
-            if 'face_edge' in supply and 'edge_node' not in supply:
-                continue      # face_edge numbers refer to an edge table: meaningless without one
+            if ({'face_edge', 'edge_face'} & set(supply)) and 'edge_node' not in supply:
+                continue      # edge numbers refer to an edge table: ill-defined without one
             for coords in (False, True):
                 # a different edge numbering is only meaningful when the file defines the edges (edge_node supplied)
                 for eo in (('identity', 'reversed') if 'edge_node' in supply else ('identity',)):
